@@ -882,6 +882,23 @@ func (f *Flow) valueOf(v ssa.Value, c code, fi *flagInfo, b *ssa.BasicBlock) int
 			}
 		}
 	}
+	// the bool result of the inlined helper call this path just returned from
+	if f.Tags && c.tag != 0 && c.tc != 0 {
+		var call *ssa.Call
+		switch x := v.(type) {
+		case *ssa.Call:
+			call = x
+		case *ssa.Extract:
+			if cl, ok := x.Tuple.(*ssa.Call); ok {
+				if cal := cl.Common().StaticCallee(); cal != nil && x.Index == tagIndex(cal.Signature) {
+					call = cl
+				}
+			}
+		}
+		if call != nil && f.tagCalls[call] == c.tc {
+			return c.tag
+		}
+	}
 	if q, ok := v.(*ssa.Phi); ok {
 		if k, ok := fi.slot[q]; ok && fi.current(q, b) {
 			if fv := c.f[k]; fv < 3 {
@@ -1130,7 +1147,32 @@ func (f *Flow) runFn(fn *ssa.Function, entry codes, depth int) codes {
 							}
 						}
 					}
-					if v != 0 {
+					// the edge value is the bool result of an inlined helper call: on a path that
+					// just returned from that call the result is known
+					var tagCall *ssa.Call
+					if f.Tags {
+						switch x := e.(type) {
+						case *ssa.Call:
+							tagCall = x
+						case *ssa.Extract:
+							if cl, ok := x.Tuple.(*ssa.Call); ok {
+								if cal := cl.Common().StaticCallee(); cal != nil && x.Index == tagIndex(cal.Signature) {
+									tagCall = cl
+								}
+							}
+						}
+					}
+					if tagCall != nil && v != 1 && v != 2 {
+						id := f.tagCalls[tagCall]
+						sym := v
+						set = func(c *code) {
+							if id != 0 && c.tag != 0 && c.tc == id {
+								c.f[k] = c.tag
+							} else {
+								c.f[k] = sym
+							}
+						}
+					} else if v != 0 {
 						set = func(c *code) { c.f[k] = v }
 					} else if q, ok := e.(*ssa.Phi); ok && fi.slot[q] == k && q != p && fi.current(q, b) {
 						if _, tracked := fi.slot[q]; tracked {
